@@ -348,6 +348,13 @@ class PfWorld:
             extra['LINE_CROPPER'] = {'INTERP': str(cfg.get('interp', 2)), 'LINE_SCALE': '1', 'LINE_HEIGHT': str(stubocr.LINE_HEIGHT)}
         if mode == 'ocr':
             pp['RUN_OCR'] = 'yes'
+        if mode == 'layout':
+            pp['RUN_LAYOUT_PARSER'] = 'yes'
+            pp['RUN_LINE_CROPPER'] = 'yes' if 'lines' in plan['outputs'] else 'no'
+            extra['LAYOUT_PARSER_1'] = {'METHOD': 'REGION_WHOLE_PAGE'}
+            extra['LAYOUT_PARSER_2'] = {'METHOD': 'LINES_SIMPLE_THRESHOLD', 'ADAPTIVE_THRESHOLD': '21', 'BLOCK_SIZE': '51',
+                                        'MINIMUM_LENGTH': '10', 'IGNORED_BORDER_PIXELS': '4'}
+            extra['LINE_CROPPER'] = {'INTERP': str(cfg.get('interp', 2)), 'LINE_SCALE': '1', 'LINE_HEIGHT': str(stubocr.LINE_HEIGHT)}
         extra['PAGE_PARSER'] = pp
         run_decoder = bool(cfg.get('decoder')) and mode in ('ocr', 'decode')
         dcfg = dict(cfg.get('decoder') or {})
@@ -362,15 +369,18 @@ class PfWorld:
             stubocr.ensure_engine_files(cdir, self.chars)
         self.in_img = self.in_xml = self.in_logits = None
         ids = [p['id'] for p in plan['pages']]
-        if mode in ('ocr', 'crop') or plan.get('with_images'):
+        if mode in ('ocr', 'crop', 'layout') or plan.get('with_images'):
             self.in_img = os.path.join(self.root, 'in_img')
             os.makedirs(self.in_img)
             for p in plan['pages']:
-                cv2.imwrite(os.path.join(self.in_img, p['id'] + p.get('ext', '.png')), stubocr.paint_page(self.img_spec(p), cfg['nchars']))
+                img = stubocr.paint_text_page(self.img_spec(p)) if mode == 'layout' else stubocr.paint_page(self.img_spec(p), cfg['nchars'])
+                cv2.imwrite(os.path.join(self.in_img, p['id'] + p.get('ext', '.png')), img)
         if mode in ('ocr', 'crop'):
             self.in_xml = os.path.join(self.root, 'in_xml')
             os.makedirs(self.in_xml)
             for p in plan['pages']:
+                if p.get('no_xml'):
+                    continue            # with --skipp-missing-xml such a page is not an input page
                 with open(os.path.join(self.in_xml, p['id'] + '.xml'), 'w') as f:
                     f.write(stubocr.page_xml(self.img_spec(p), p['id']))
         if mode == 'decode':
@@ -415,6 +425,8 @@ class PfWorld:
         """Per page: the output files a complete page has, by requested kind."""
         exp = {}
         for p in self.plan['pages']:
+            if p.get('no_xml'):
+                continue
             fs = {}
             for kind in self.plan['outputs']:
                 if kind == 'xml':
@@ -452,6 +464,8 @@ class PfWorld:
             a += ['--output-transcriptions-file-path', os.path.join(out, 'transcriptions.txt')]
         if procs > 1:
             a += ['--process-count', str(procs)]
+        if any(p.get('no_xml') for p in self.plan['pages']):
+            a.append('--skipp-missing-xml')
         return a
 
     # -- one simulated process
